@@ -137,7 +137,7 @@ _RETRY = list(retry_family())
 
 def single_block_family(max_d):
     opts = ["ok", "raise", "gate"]
-    xopts = opts + ["swallow"]      # exit only: `__aexit__` returns True
+    xopts = opts + ["swallow", "reraise"]      # exit only: `__aexit__` returns True / re-raises the exception it was handed
     for nd in range(0, max_d + 1):
         for disp in itertools.product(itertools.product(opts, xopts), repeat=nd):
             for body in ("ok", "raise", "base", "gate"):
